@@ -104,6 +104,10 @@ func (t *brokerPublishTransactionBase) resend(pktx interface{}) error {
 		// The packet is already queued for a sleeping client, do not queue
 		// it again. The client cannot answer before it wakes up, its sleep
 		// must not use up the retries.
+		// The packet object can also be in the buffer of a sleeping client:
+		// it must not change while the wake-up sequence sends it from there.
+		t.handler.snSendLock.Lock()
+		defer t.handler.snSendLock.Unlock()
 		if t.handler.state.Get() == util.StateAsleep {
 			return transactions.ErrRetryPostponed
 		}
@@ -111,7 +115,7 @@ func (t *brokerPublishTransactionBase) resend(pktx interface{}) error {
 		if dupPkt, ok := pkt.(snPkts.PacketWithDUP); ok {
 			dupPkt.SetDUP(true)
 		}
-		return t.handler.snSend(pkt)
+		return t.handler.snSendLocked(pkt)
 	case mqPkts.ControlPacket:
 		// PUBLISH is the only packet with DUP in MQTT.
 		if publish, ok := pkt.(*mqPkts.PublishPacket); ok {
